@@ -11,6 +11,26 @@ import numpy as np
 from . import common
 
 PROP = "C19"
+INFO = dict(
+
+    technique="Lean 4 proof (refinement of every lazy-list program to ordinary lists, by induction over programs) "
+              "+ model/implementation correspondence on random programs",
+    level_text="Theorems over an executable model of LazyList: for every program built from map (both forms), "
+               "int/negative/slice/fancy indexing, repeat, +, copy, to any depth, the lazy result evaluates to the "
+               "ordinary-list result (errors included), construction consults no callable, and a read evaluates "
+               "exactly the element's dependency chain.  The model is tied to /repo by running the real LazyList "
+               "with instrumented callables on random programs and diffing values, lengths, error kinds and "
+               "per-read evaluation logs against the Lean driver; an independent ordinary-list oracle decides "
+               "the property on the real code.",
+    level_note="Trusted: Lean kernel; axioms propext/Classical.choice/Quot.sound; the Python harness and the "
+               "driver's parser; CPython list/slice semantics are modelled (Core/PyData.lean) and exercised by the "
+               "correspondence, not verified.  Receivers-unchanged is a value-model fact plus a check on real objects.",
+    rule="random programs (depth<=8, base lists of length 0..7, all constructors, all index container kinds); a case "
+         "is one program; distinct = distinct token sequence; non-trivial = depth >= 2",
+    partial=["receivers-unchanged is proved in the value model only; aliasing between the Python lists is observed "
+             "on the real objects (every intermediate list re-read after all later operations)"],
+    assumptions=["callables are deterministic functions of their argument (instrumented test callables)"],
+    design_ref="DESIGN.md section 6, C19")
 IMPORTS = ["MenpoModel.Props.C19"]
 THEOREMS = [
     "MenpoModel.LazyList.lazy_refines_list",
